@@ -1859,4 +1859,248 @@ theorem wrapper_guard' {α} (it : List α) : wrapperSkips it = true ↔ it = [] 
 theorem wrapper_guard_counterexample' :
     wrapperSkips [none, some 1, some 2] = false ∧ wrapperSkipsStale [none, some 1, some 2] = true := by decide
 
+
+/-! ### commutation of independent steps -/
+
+def Commutes (c : Cfg) (s : State) (a b : Action) : Prop :=
+  enabled c (step c s a) b = true ∧ enabled c (step c s b) a = true ∧ step c (step c s a) b = step c (step c s b) a
+
+theorem Commutes.symm {c s a b} (h : Commutes c s a b) : Commutes c s b a := ⟨h.2.1, h.1, h.2.2.symm⟩
+
+theorem stopped_of_main {s s' : State} (h : s'.main = s.main) : s'.stopped = s.stopped := by
+  simp [State.stopped, h]
+
+theorem comm_loadTake_wPut (c : Cfg) (s : State) (w : Nat) (ha : enabled c s .loadTake = true) (hb : enabled c s (.wPut w) = true) :
+    Commutes c s .loadTake (.wPut w) := by
+  obtain ⟨k, o, pend, e, hw⟩ := en_wPut hb
+  simp only [enabled, Bool.and_eq_true] at ha
+  have hst : s.stopped = false := by simpa using ha.1.2
+  cases ht : s.todo with
+  | nil => simp [ht] at ha
+  | cons x rest =>
+    cases hp : perrOf x <;>
+      simp [Commutes, enabled, step, ht, hp, hw, ha.1.1, State.stopped] <;> simpa [State.stopped] using hst
+
+theorem comm_loadPut_wPut (c : Cfg) (s : State) (w : Nat) (ha : enabled c s .loadPut = true) (hb : enabled c s (.wPut w) = true) :
+    Commutes c s .loadPut (.wPut w) := by
+  obtain ⟨k, o, pend, e, hw⟩ := en_wPut hb
+  simp only [enabled, Bool.and_eq_true] at ha
+  cases hi : s.infl with
+  | none => simp [hi] at ha
+  | some x => simp [Commutes, enabled, step, hi, hw, ha]
+
+theorem comm_wGet_wPut (c : Cfg) (s : State) (w w' : Nat) (hne : w ≠ w') (ha : enabled c s (.wGet w) = true) (hb : enabled c s (.wPut w') = true) :
+    Commutes c s (.wGet w) (.wPut w') := by
+  obtain ⟨k, x, rest, hw, hk, hq⟩ := en_wGet ha
+  obtain ⟨k', o, pend, e, hw'⟩ := en_wPut hb
+  have h1 : ∀ y, (s.ws.set w y)[w']? = s.ws[w']? := fun y => by rw [List.getElem?_set_ne hne]
+  have h2 : ∀ y, (s.ws.set w' y)[w]? = s.ws[w]? := fun y => by rw [List.getElem?_set_ne (Ne.symm hne)]
+  cases x <;> simp [Commutes, enabled, step, hw, hw', hq, hk, h1, h2, List.set_comm _ _ hne]
+
+theorem comm_loadTake_wGet (c : Cfg) (s : State) (w : Nat) (ha : enabled c s .loadTake = true) (hb : enabled c s (.wGet w) = true) :
+    Commutes c s .loadTake (.wGet w) := by
+  obtain ⟨k, x, rest, hw, hk, hq⟩ := en_wGet hb
+  simp only [enabled, Bool.and_eq_true] at ha
+  have hst : s.stopped = false := by simpa using ha.1.2
+  cases ht : s.todo with
+  | nil => simp [ht] at ha
+  | cons y ys =>
+    cases hp : perrOf y <;> cases x <;>
+      simp [Commutes, enabled, step, ht, hp, hw, hq, hk, ha.1.1, State.stopped] <;> simpa [State.stopped] using hst
+
+theorem comm_loadTake_wCallback (c : Cfg) (s : State) (w : Nat) (ha : enabled c s .loadTake = true) (hb : enabled c s (.wCallback w) = true) :
+    Commutes c s .loadTake (.wCallback w) := by
+  obtain ⟨p, e, hw⟩ := en_wCallback hb
+  simp only [enabled, Bool.and_eq_true] at ha
+  have hst : s.stopped = false := by simpa using ha.1.2
+  cases ht : s.todo with
+  | nil => simp [ht] at ha
+  | cons y ys =>
+    cases hp : perrOf y <;>
+      (simp only [Commutes, enabled, step, ht, hp, hw]
+       split <;> simp [ha.1.1, ht, hp, State.stopped] <;> simpa [State.stopped] using hst)
+
+theorem comm_loadPut_wCallback (c : Cfg) (s : State) (w : Nat) (ha : enabled c s .loadPut = true) (hb : enabled c s (.wCallback w) = true) :
+    Commutes c s .loadPut (.wCallback w) := by
+  obtain ⟨p, e, hw⟩ := en_wCallback hb
+  simp only [enabled, Bool.and_eq_true] at ha
+  cases hi : s.infl with
+  | none => simp [hi] at ha
+  | some x =>
+    simp only [Commutes, enabled, step, hi, hw]
+    split <;> simp [hi, ha]
+
+theorem comm_wGet_wCallback (c : Cfg) (s : State) (w w' : Nat) (hne : w ≠ w') (ha : enabled c s (.wGet w) = true)
+    (hb : enabled c s (.wCallback w') = true) : Commutes c s (.wGet w) (.wCallback w') := by
+  obtain ⟨k, x, rest, hw, hk, hq⟩ := en_wGet ha
+  obtain ⟨p, e, hw'⟩ := en_wCallback hb
+  have h1 : ∀ y, (s.ws.set w y)[w']? = s.ws[w']? := fun y => by rw [List.getElem?_set_ne hne]
+  have h2 : ∀ y, (s.ws.set w' y)[w]? = s.ws[w]? := fun y => by rw [List.getElem?_set_ne (Ne.symm hne)]
+  cases x <;> by_cases hc : (!p && (s.excs ++ e.toList).isEmpty) = true <;>
+    simp [Commutes, enabled, step, hw, hw', hq, hk, h1, h2, hc, List.set_comm _ _ hne]
+
+theorem comm_loadPut_cGet (c : Cfg) (s : State) (ha : enabled c s .loadPut = true) (hb : enabled c s .cGet = true) :
+    Commutes c s .loadPut .cGet := by
+  simp only [enabled, Bool.and_eq_true] at ha hb
+  cases hi : s.infl with
+  | none => simp [hi] at ha
+  | some x =>
+    cases hq : s.outq with
+    | nil => simp [hq] at hb
+    | cons y ys => cases y <;> simp [Commutes, enabled, step, hi, hq, ha, hb]
+
+theorem comm_wGet_cGet (c : Cfg) (s : State) (w : Nat) (ha : enabled c s (.wGet w) = true) (hb : enabled c s .cGet = true) :
+    Commutes c s (.wGet w) .cGet := by
+  obtain ⟨k, x, rest, hw, hk, hq⟩ := en_wGet ha
+  simp only [enabled, Bool.and_eq_true] at hb
+  cases ho : s.outq with
+  | nil => simp [ho] at hb
+  | cons y ys => cases y <;> cases x <;> simp [Commutes, enabled, step, hw, hq, hk, ho, hb]
+
+theorem comm_mEvent (c : Cfg) (s : State) (a : Action) (hm : a = .loadTake ∨ a = .loadPut ∨ (∃ w, a = .wGet w) ∨ (∃ w, a = .wPut w))
+    (ha : enabled c s a = true) (hb : enabled c s .mEvent = true) : Commutes c s a .mEvent := by
+  simp only [enabled, Bool.and_eq_true] at hb
+  have hmw : s.main = .waitEvent := by simpa using hb.1
+  rcases hm with rfl | rfl | ⟨w, rfl⟩ | ⟨w, rfl⟩
+  · simp only [enabled, Bool.and_eq_true] at ha
+    cases ht : s.todo with
+    | nil => simp [ht] at ha
+    | cons y ys => cases hp : perrOf y <;> simp [Commutes, enabled, step, ht, hp, ha.1.1, hb, hmw, State.stopped]
+  · simp only [enabled, Bool.and_eq_true] at ha
+    cases hi : s.infl with
+    | none => simp [hi] at ha
+    | some x => simp [Commutes, enabled, step, hi, ha, hb, hmw]
+  · obtain ⟨k, x, rest, hw, hk, hq⟩ := en_wGet ha
+    cases x <;> simp [Commutes, enabled, step, hw, hq, hk, hb, hmw]
+  · obtain ⟨k, o, pend, e, hw⟩ := en_wPut ha
+    simp [Commutes, enabled, step, hw, hb, hmw]
+
+/-- replacing the state of lineage `w` (and possibly setting the event): what `wBegin`, `wRaise`, `wRetire` do -/
+def localStep (w : Nat) (x : W) (ev : Bool) (s : State) : State := { s with ws := s.ws.set w x, event := s.event || ev }
+
+theorem local_enabled (c : Cfg) (s : State) (w : Nat) (x : W) (ev : Bool) (b : Action) (hl : lin b ≠ some w)
+    (hb : enabled c s b = true) : enabled c (localStep w x ev s) b = true := by
+  cases b with
+  | wBegin w' | wGet w' | wPut w' | wRaise w' | wRetire w' | wCallback w' =>
+    have hne : w ≠ w' := fun h => hl (by simp [lin, h])
+    simp_all [enabled, localStep, List.getElem?_set_ne hne]
+  | _ => simp_all [enabled, localStep, State.stopped]
+
+theorem local_step (c : Cfg) (s : State) (w : Nat) (x : W) (ev : Bool) (b : Action) (hl : lin b ≠ some w) :
+    step c (localStep w x ev s) b = localStep w x ev (step c s b) := by
+  cases b with
+  | wBegin w' | wGet w' | wPut w' | wRaise w' | wRetire w' | wCallback w' =>
+    have hne : w ≠ w' := fun h => hl (by simp [lin, h])
+    simp only [step, localStep, List.getElem?_set_ne hne]
+    all_goals (repeat' split)
+    all_goals simp_all [List.set_comm _ _ (Ne.symm hne)]
+  | _ =>
+    simp only [step, localStep]
+    all_goals (repeat' split)
+    all_goals simp_all
+
+theorem frame_ws (c : Cfg) (s : State) (w : Nat) (b : Action) (hl : lin b ≠ some w) :
+    (step c s b).ws[w]? = s.ws[w]? := by
+  cases b with
+  | wBegin w' | wGet w' | wPut w' | wRaise w' | wRetire w' | wCallback w' =>
+    have hne : w' ≠ w := fun h => hl (by simp [lin, h])
+    simp only [step]
+    all_goals (repeat' split)
+    all_goals simp_all [List.getElem?_set_ne hne]
+  | _ =>
+    simp only [step]
+    all_goals (repeat' split)
+    all_goals simp_all
+
+theorem frame_main (c : Cfg) (s : State) (b : Action) (h : s.main ≠ .waitEvent) : (step c s b).main ≠ .waitEvent := by
+  cases b <;> simp only [step] <;> (repeat' split) <;> simp_all
+
+/-- the replacement state (and whether the event gets set) a local step computes from the lineage's own state -/
+def localOf : Action → Option W → W × Bool
+  | .wBegin _, _ => (.run 0 [] none, true)
+  | .wRaise _, some (.run _ _ e) => (.exited false e, false)
+  | .wRetire _, _ => (.exited false none, false)
+  | _, _ => (.dead, false)
+
+theorem local_form (c : Cfg) (s : State) (a : Action) (w : Nat) (hloc : isLocal a = true) (hw : lin a = some w)
+    (ha : enabled c s a = true) :
+    step c s a = localStep w (localOf a s.ws[w]?).1 (localOf a s.ws[w]?).2 s := by
+  cases a <;> simp [isLocal] at hloc <;> simp [lin] at hw <;> subst hw
+  · simp [step, localStep, localOf]
+  · obtain ⟨k, e, hw⟩ := en_wRaise ha
+    simp [step, localStep, localOf, hw]
+  · simp [step, localStep, localOf]
+
+theorem local_stays_enabled (c : Cfg) (s : State) (a b : Action) (w : Nat) (hloc : isLocal a = true) (hw : lin a = some w)
+    (hl : lin b ≠ some w) (ha : enabled c s a = true) : enabled c (step c s b) a = true := by
+  have hf := frame_ws c s w b hl
+  cases a <;> simp [isLocal] at hloc <;> simp [lin] at hw <;> subst hw
+  · simp only [enabled, Bool.and_eq_true, Bool.or_eq_true] at ha ⊢
+    refine ⟨by rw [hf]; exact ha.1, ?_⟩
+    rcases ha.2 with h | h
+    · exact Or.inl h
+    · right
+      have : s.main ≠ .waitEvent := by simpa using h
+      simpa using frame_main c s b this
+  · simp only [enabled] at ha ⊢; rw [hf]; exact ha
+  · simp only [enabled] at ha ⊢; rw [hf]; exact ha
+
+/-- a step that only concerns one lineage (`wBegin`, `wRaise`, `wRetire`) commutes with every step of another actor -/
+theorem step_comm_local' (c : Cfg) (s : State) (a b : Action) (w : Nat) (hloc : isLocal a = true) (hw : lin a = some w)
+    (hl : lin b ≠ some w) (ha : enabled c s a = true) (hb : enabled c s b = true) : Commutes c s a b := by
+  have hs := local_form c s a w hloc hw ha
+  have ha' := local_stays_enabled c s a b w hloc hw hl ha
+  have hs' := local_form c (step c s b) a w hloc hw ha'
+  rw [frame_ws c s w b hl] at hs'
+  refine ⟨?_, ha', ?_⟩
+  · rw [hs]; exact local_enabled c s w _ _ b hl hb
+  · rw [hs, hs', local_step c s w _ _ b hl]
+
+theorem step_comm1 (c : Cfg) (s : State) (a b : Action) (hi : indep1 a b = true)
+    (ha : enabled c s a = true) (hb : enabled c s b = true) : Commutes c s a b := by
+  simp only [indep1, Bool.or_eq_true, Bool.and_eq_true] at hi
+  rcases hi with ⟨hloc, hne⟩ | ht
+  · cases hw : lin a with
+    | none => cases a <;> simp [isLocal] at hloc <;> simp [lin] at hw
+    | some w =>
+      refine step_comm_local' c s a b w hloc hw ?_ ha hb
+      rw [hw] at hne
+      simpa using hne
+  · cases a <;> cases b <;> simp at ht
+    · exact comm_loadTake_wGet c s _ ha hb
+    · exact comm_loadTake_wPut c s _ ha hb
+    · exact comm_loadTake_wCallback c s _ ha hb
+    · exact comm_mEvent c s _ (Or.inl rfl) ha hb
+    · exact comm_loadPut_wPut c s _ ha hb
+    · exact comm_loadPut_wCallback c s _ ha hb
+    · exact comm_mEvent c s _ (Or.inr (Or.inl rfl)) ha hb
+    · exact comm_loadPut_cGet c s ha hb
+    · exact comm_wGet_wPut c s _ _ ht ha hb
+    · exact comm_wGet_wCallback c s _ _ ht ha hb
+    · exact comm_mEvent c s _ (Or.inr (Or.inr (Or.inl ⟨_, rfl⟩))) ha hb
+    · exact comm_wGet_cGet c s _ ha hb
+    · exact comm_mEvent c s _ (Or.inr (Or.inr (Or.inr ⟨_, rfl⟩))) ha hb
+
+theorem step_comm' (c : Cfg) (s : State) (a b : Action) (hi : indep a b = true)
+    (ha : enabled c s a = true) (hb : enabled c s b = true) : Commutes c s a b := by
+  simp only [indep, Bool.or_eq_true] at hi
+  rcases hi with h | h
+  · exact step_comm1 c s a b h ha hb
+  · exact (step_comm1 c s b a h hb ha).symm
+
+
+/-- swapping two adjacent independent steps (both possible in the same state) does not change what a schedule computes -/
+theorem swap_adjacent' (c : Cfg) (s : State) (a b : Action) (rest : List Action) (hi : indep a b = true)
+    (ha : enabled c s a = true) (hb : enabled c s b = true) :
+    runTrace c s (a :: b :: rest) = runTrace c s (b :: a :: rest) := by
+  obtain ⟨h1, h2, h3⟩ := step_comm' c s a b hi ha hb
+  simp [runTrace, ha, hb, h1, h2, h3]
+
+def commCfg : Cfg := { n := 2, m := 1, items := [{ id := 0, outs := [1], err := none }, { id := 1, outs := [2], err := none }] }
+def commState : State := (runTrace commCfg (init commCfg) [.wBegin 0, .mEvent, .wBegin 1, .loadTake, .loadPut, .loadTake, .wGet 0]).getD (init commCfg)
+
+theorem step_comm_example' :
+    indep (.wPut 0) .loadPut = true ∧ enabled commCfg commState (.wPut 0) = true ∧ enabled commCfg commState .loadPut = true
+      ∧ indep (.wPut 0) .cGet = false := by decide
+
 end Coba.C08
